@@ -177,7 +177,11 @@ func VerifH_C20_emitter_reentrant() {
 			order = append(order, 9)
 		}
 		if i < 2 {
-			e.On(evt, ls[i])
+			if verif.Bool() {
+				e.On(evt, ls[i])
+			} else {
+				e.Once(evt, ls[i]) // a one-shot registration is a registration like any other for this emit
+			}
 			order = append(order, i)
 		}
 	}
